@@ -182,6 +182,21 @@ impl<'a> R<'a> {
                 }
             }
         }
+        if let Expr::Closure(cl) = e {
+            // |(a, b)| body  ->  |qx_c0| { let (a, b) = qx_c0; body }   (closure parameter patterns are irrefutable bindings)
+            if self.opts.has_rw("closure_pat") && cl.inputs.iter().any(|p| !matches!(p, syn::Pat::Ident(_) | syn::Pat::Wild(_) | syn::Pat::Type(_))) {
+                self.note("R5b closure parameter pattern `|(a, b)| body` -> `|qx_c0| { let (a, b) = qx_c0; body }`");
+                let mut names = vec![]; let mut lets = String::new();
+                for (k, p) in cl.inputs.iter().enumerate() {
+                    match p {
+                        syn::Pat::Ident(_) | syn::Pat::Wild(_) | syn::Pat::Type(_) => names.push(self.pat(p)),
+                        other => { names.push(format!("qx_c{}", k)); lets.push_str(&format!("let {} = qx_c{}; ", self.pat(other), k)); }
+                    }
+                }
+                let mv = if cl.capture.is_some() { "move " } else { "" };
+                return Some(format!("{}|{}| {{ {}{} }}", mv, names.join(", "), lets, self.expr(&cl.body)));
+            }
+        }
         if let Expr::Call(c) = e {
             // (*f)(args): a call through a dereferenced function object (an `Arc<dyn Fn…>` field)
             if self.opts.has_rw("fnptr") {
